@@ -1059,7 +1059,7 @@ pub fn run(args: &Args, out: &mut Out) {
     }
 
     // (3) random candidate sets of 2-5 overloads with 1-3 parameters: every permutation x several argument tuples
-    let n = args.n.unwrap_or(if args.thorough() { 6000 } else { 600 });
+    let n = args.n.unwrap_or(if args.thorough() { 5000 } else { 600 });
     let tuples = if args.thorough() { 6 } else { 4 };
     for _ in 0..n {
         let (cands, centre) = random_set(&mut rng, &mut hist);
